@@ -87,6 +87,11 @@ QUERIES = [
     ("Select", "lambda e: e.getAttr[5]('x')"),
     ("Select", "lambda e: e.getAttr['a', 2]('y') + e.met()"),
     ("Select", "lambda e: e.Jets().Select(lambda j: e.getAttr[1.5]('z'))"),
+    # operator lambdas passed by KEYWORD
+    ("Select", "lambda e: e.Jets().Where(filter=lambda j: j.pt() > 1).Count()"),
+    ("Select", "lambda e: e.Jets().Select(f=lambda j: j.pt())"),
+    ("Select", "lambda e: e.Jets().Select(lambda j: j.Tracks().Where(filter=lambda t: t.pt() > 0).Count())"),
+    ("Where", "lambda e: e.Jets().Where(filter=lambda j: MySqrt(j.eta()) > 1).Count() > 0"),
     ("Select", "lambda e: 1"),
     ("Select", "lambda e: e.other.pt()"),
 ]
@@ -157,7 +162,8 @@ class RandCB:
         src, k = r.choice(opts)()
         if d > 0 and r.random() < 0.4:
             v = self.fresh(scope)
-            src = f"{src}.Where(lambda {v}: {self.boo(self.bind(scope, v, k), d - 1)})"
+            kw = "filter=" if r.random() < 0.25 else ""
+            src = f"{src}.Where({kw}lambda {v}: {self.boo(self.bind(scope, v, k), d - 1)})"
         return src, k
 
     def count(self, scope, d):
@@ -176,7 +182,7 @@ class RandCB:
         s = self.seq(scope, d)
         v = self.fresh(scope)
         body = self.flt(self.bind(scope, v, s[1]), d - 1)
-        sel = f"{s[0]}.Select(lambda {v}: {body})"
+        sel = f"{s[0]}.Select({'f=' if r.random() < 0.25 else ''}lambda {v}: {body})"
         return ("Select" if kind == 2 else "SelectMany"), f"lambda e: {sel}"
 
 
@@ -225,7 +231,7 @@ def expected_sites(src, placement):
                     return ret[m]
                 return None
             if recv and recv.endswith("*") and m in ("Select", "Where"):
-                lam = n.args[0]
+                lam = n.args[0] if n.args else n.keywords[0].value
                 ty(lam.body, dict(env, **{lam.args.args[0].arg: recv[:-1]}))
                 return recv if m == "Where" else None
             for a in n.args:
